@@ -66,10 +66,9 @@ RULE = ("select: exhaustive specifications of depth <= 2 over 4 leaves (string, 
         "sets, string/tuple argument forms. Non-trivial: select - a value is selected and another is not, or an exception; "
         "groupby - at least two groups and a group with two values, or a construction error.")
 CASE_TIMEOUT = 20
-# A SelectContext instance cannot be wrapped into Selector/Not/And/Or by the current /repo (AttributeError
-# '_selector_repr' at construction - reported as a finding).  With C15_SELCTX_NESTED=1 the generator also puts
-# SelectContext inside containers (the model covers that); by default it is generated where it can be constructed.
-SELCTX_NESTED = os.environ.get("C15_SELCTX_NESTED", "") == "1"
+# SelectContext instances are generated inside Selector/Not/And/Or/lists/tuples too (possible since commit 0b5fd4d;
+# before it the construction raised AttributeError '_selector_repr').  C15_SELCTX_NESTED=0 switches that off.
+SELCTX_NESTED = os.environ.get("C15_SELCTX_NESTED", "1") != "0"
 
 # ---------------------------------------------------------------------------------------------
 # python side of the specification encoding
@@ -557,6 +556,8 @@ def _ref_data_ctx(val):
 
 def _ref_contains(ctx, s):
     """documented meaning of contains: the dotted string addresses a key, or a scalar whose str() is the last part"""
+    if s == "":
+        return True          # the empty string names the context itself (as for get_recursively)
     levels = s.split(".")
     cur = ctx
     for k in levels[:-1]:
